@@ -1,6 +1,7 @@
 package rules
 
 import (
+	_ "embed"
 	"fmt"
 	"go/ast"
 	"go/token"
@@ -53,7 +54,7 @@ func isErrorType(t types.Type) bool {
 // in source order.
 func litsIn(n ast.Node) []*ast.FuncLit {
 	var out []*ast.FuncLit
-	ast.Inspect(n, func(m ast.Node) bool {
+	inspect(n, func(m ast.Node) bool {
 		if lit, ok := m.(*ast.FuncLit); ok && m != n {
 			out = append(out, lit)
 			return false
@@ -66,7 +67,7 @@ func litsIn(n ast.Node) []*ast.FuncLit {
 // allLitsIn returns every function literal nested in n at any depth.
 func allLitsIn(n ast.Node) []*ast.FuncLit {
 	var out []*ast.FuncLit
-	ast.Inspect(n, func(m ast.Node) bool {
+	inspect(n, func(m ast.Node) bool {
 		if lit, ok := m.(*ast.FuncLit); ok && m != n {
 			out = append(out, lit)
 		}
@@ -168,7 +169,7 @@ func (r *Run) errCheckedOpt(fn ast.Node, construct, tagA, tagB string, isA, isB 
 	dests := map[*ast.CallExpr]dest{}
 	prescan := func(c *pathsim.Ctx) {
 		var stack []ast.Node
-		ast.Inspect(c.Body, func(n ast.Node) bool {
+		inspect(c.Body, func(n ast.Node) bool {
 			if n == nil {
 				stack = stack[:len(stack)-1]
 				return false
@@ -394,11 +395,105 @@ func (r *Run) callSitesOf(fn *types.Func, withInterfaces bool) []callSite {
 }
 
 // scopeName is the position-free name of the function a use sits in.
+// scopeName names the declared function a piece of code belongs to. A single-use helper — a
+// function of the main module whose only reference in non-test code is one direct call — is
+// attributed to the function that calls it (followed up to three levels), so that extracting
+// a block into a helper, or inlining one, does not change who a use is attributed to.
+// scopeName names the declared function a piece of code belongs to. A function that did not
+// exist when the tables of this checker were confirmed (it is not in baseline_funcs.txt) and
+// whose only reference in non-test code is one direct call — the result of an "extract
+// method" refactoring — is attributed to the function that calls it (followed up to three
+// levels). Every function the frozen tables can mention keeps its own name.
 func (r *Run) scopeName(s *prog.FuncScope) string {
 	if s == nil {
 		return "<package-level>"
 	}
-	return s.Fn.Name()
+	fi := s.Fn
+	own := fi.Name()
+	for depth := 0; depth < 4 && fi != nil; depth++ {
+		if baselineFuncs()[fi.Name()] {
+			return fi.Name()
+		}
+		caller := r.singleCaller(fi)
+		if caller == nil || caller.Obj == fi.Obj {
+			break
+		}
+		fi = caller
+	}
+	return own
+}
+
+//go:embed baseline_funcs.txt
+var baselineFuncsTxt string
+
+var baselineFuncSet map[string]bool
+
+func baselineFuncs() map[string]bool {
+	if baselineFuncSet == nil {
+		baselineFuncSet = map[string]bool{}
+		for _, l := range strings.Split(baselineFuncsTxt, "\n") {
+			if l = strings.TrimSpace(l); l != "" {
+				baselineFuncSet[l] = true
+			}
+		}
+	}
+	return baselineFuncSet
+}
+
+// singleCaller returns the function that contains every reference to fi, provided each
+// reference is a direct call in non-test code of the main module; nil otherwise.
+func (r *Run) singleCaller(fi *prog.FuncInfo) *prog.FuncInfo {
+	if fi.Obj == nil || fi.Decl == nil || fi.Decl.Body == nil {
+		return nil
+	}
+	if fi.Obj.Name() == "main" || fi.Obj.Name() == "init" {
+		return nil
+	}
+	// methods that may satisfy an interface are reachable dynamically
+	if sig, ok := fi.Obj.Type().(*types.Signature); ok && sig.Recv() != nil && fi.Obj.Exported() {
+		return nil
+	}
+	if len(r.P.InterfaceMethodsFor(fi.Obj)) > 0 {
+		return nil
+	}
+	var only *prog.FuncInfo
+	n := 0
+	for _, u := range r.P.Uses(fi.Obj) {
+		if prog.IsTestSupport(u.Pkg.PkgPath) {
+			return nil
+		}
+		n++
+		if u.Scope == nil {
+			return nil
+		}
+		path := r.P.PathTo(u.File, u.Ident.Pos(), u.Ident.End())
+		isCall := false
+		for k := len(path) - 1; k >= 0; k-- {
+			switch x := path[k].(type) {
+			case *ast.Ident, *ast.SelectorExpr, *ast.ParenExpr:
+				continue
+			case *ast.CallExpr:
+				f := ast.Unparen(x.Fun)
+				if f == ast.Node(u.Ident) {
+					isCall = true
+				} else if sel, ok := f.(*ast.SelectorExpr); ok && sel.Sel == u.Ident {
+					isCall = true
+				}
+			}
+			break
+		}
+		if !isCall {
+			return nil
+		}
+		if only != nil && only != u.Scope.Fn {
+			return nil
+		}
+		only = u.Scope.Fn
+	}
+	if n == 0 {
+		return nil
+	}
+	return only
 }
 
 // whoMayCall: every call site (or value use) of fn outside test-support packages lies in
